@@ -64,7 +64,7 @@ func init() {
 		Trusted: trust("A-PS", "A-SORT", "A-STACK")})
 	add(&propSpec{ID: "C14", Level: "proof", Funcs: []string{"bexpr.evaluateCollectionExpression", "bexpr.evaluateCollectionExpression$1"},
 		Trusted: trust("A-SORT", "A-PS")})
-	add(&propSpec{ID: "C18", Level: "proof", Funcs: append([]string{"bexpr.Evaluator.Evaluate", "bexpr.getValue", "bexpr.CreateEvaluator", "bexpr.CreateFilter", "grammar.MaxExpressions"}, optFuncs...),
+	add(&propSpec{ID: "C18", Level: "proof", Funcs: append([]string{"bexpr.Evaluator.Evaluate", "bexpr.evaluate", "bexpr.evaluateMatchExpression", "bexpr.evaluateCollectionExpression", "bexpr.evaluateCollectionExpression$1", "bexpr.getValue", "bexpr.evaluateNotPresent", "bexpr.Filter.Execute", "bexpr.CreateEvaluator", "bexpr.CreateFilter", "grammar.MaxExpressions"}, optFuncs...),
 		Trusted: trust("A-PS", "A-HOOK")})
 	add(&propSpec{ID: "C10", Level: "proof", Funcs: []string{"bexpr.CreateEvaluator", "bexpr.CreateFilter", "bexpr.compileRegexps", "grammar.MaxExpressions", "grammar.parser.parse", "grammar.parser.parse$1", "grammar.errList.add", "grammar.errList.err", "grammar.errList.dedupe", "grammar.parser.addErr", "grammar.parser.addErrAt"},
 		Trusted: trust("A-ENGINE", "A-STACK", "A-REGEXP")})
